@@ -140,6 +140,12 @@ class Seams:
         if kind == "crash" and f.get("at_call") == idx:
             self.events[-1].append("CRASH")
             self.die()
+        if kind == "eio-call" and f.get("at_call") == idx:
+            # whatever the k-th intercepted call is (also call kinds the code did not use when the
+            # harness was written: rename, replace, unlink, listdir ...) fails with EIO
+            self.fault_fired = True
+            self.events[-1].append("eio-call")
+            raise OSError(errno.EIO, os.strerror(errno.EIO), str(path if path is not None else rel))
         if klass == "open" and kind in ("eio-open", "eacces-open", "emfile-open") and f.get("nth") == nth:
             self.fault_fired = True
             self.events[-1].append(kind)
